@@ -84,7 +84,21 @@ MANIFEST = dict(
          'sequences of writer lines (lines_ok over the generated templates: exactly one cur_indent at the start of each '
          'line, a literal LF at its end, no LF in between) the text written at cur_indent c is the text written at the empty '
          'cur_indent with c put in front of every LF-terminated line (ser_node_is_shift_of_unindented, '
-         'serialise_start_indent_shifts_writer_lines): the indent can never land inside a quoted string.',
+         'serialise_start_indent_shifts_writer_lines): the indent can never land inside a quoted string. '
+         'Round 5: histories of calls. _serialise is read a second time over the state that outlives a call (gen_hprog, '
+         'KV/KvWHist.v: writes, which can raise; the child loop; guard / mark / unmark / any other use of a module-level or '
+         'class-level mutable object that some function of the module changes); writer_outcome_independent_of_leftover_state '
+         'and writer_history_independent: a program without state instructions gives back what it found and, after ANY '
+         'history of earlier calls (completed, or aborted by the file raising at any write), runs exactly as in a fresh '
+         'process; writer_marks_left_behind_refuted: cycle detection through a module-level set that is un-marked after the '
+         'children but not in a finally clause (seeded fault c01_7) -- one aborted call and the same valid tree can never '
+         'be written again. Obligations: hprog_stateless gen_hprog, an empty census of state sites in serialise / '
+         '_serialise / export / escape_text / _escape_matcher, and same_skeleton gen_hprog gen_wprog. Oracle: aborted call '
+         '(file raising at the k-th write, once or 130 times; a value that is not a string, repaired; a cycle, taken out '
+         'again; an export() generator dropped after a few lines) or an edit through the public API, then the same tree is '
+         'written again and compared with a freshly built equal tree (also for blocks below it). The deprecated export() '
+         'is now also an instruction program gen_xprog (KV/KvXProg.v): export_program_leaves_tree_unchanged and '
+         'export_program_yields_model_text (the program yields the text of the export model exp_node).',
     note='Trusted: Coq kernel + vm_compute, translate/c01_kvser.py (incl. re._parser for the character set of the '
          'escape patterns; checked per character against escape_text), translate/c01_kvloop.py (the symbolic reading of '
          'the loop body: alias tracking of four variables, classification of error messages by prefix) and '
@@ -99,10 +113,18 @@ MANIFEST = dict(
          'theorem (sampled correspondence + witnesses). escape_text(multiline=True) (no KV1 writer uses it), trees with '
          'a nameless node below the root (the format cannot carry them: they are flattened into the parent), non-str '
          'values (escape_text raises), cyclic trees and the Cython tokenizer twin are outside the model. '
-         '"Serialisation never changes the tree" for the deprecated export() is still the syntactic census plus the '
-         'identity walk of the search; for serialise()/_serialise it is the theorem about gen_wprog (the store '
+         '"Serialisation never changes the tree" is, for serialise()/_serialise and (round 5) for the deprecated export(), a '
+         'theorem about the instruction programs gen_wprog / gen_xprog (the store '
          'instruction is any statement that assigns to / deletes an attribute or item of a tree object or calls a '
-         'mutating method on one; method calls taken as pure must be one-line pure predicates of the class).',
+         'mutating method on one; method calls taken as pure must be one-line pure predicates of the class); the '
+         'syntactic census and the identity walk are kept. History independence: trusted are the classification of '
+         'module-level / class-level objects as mutable (by the value the imported module holds) and as "changed by some '
+         'function of the module" (mutating method call, item / attribute store, global declaration: syntactic), and the '
+         'reading of statements as guard / mark / unmark / state in translate/c01_kvser.py state_kind; the model of an '
+         'aborted call is "the k-th write raises and nothing after it runs" (try/finally in a writer: fail closed). State '
+         'reached only through functions of other modules that the writers call (beyond escape_text / _escape_matcher), '
+         'decorators (export() is @deprecated: the warnings registry) and C-level caches are outside the census; the '
+         'history oracle covers them by sampling.',
 )
 
 # ------------------------------------------------------------------------------------------------ calls into the implementation
@@ -1734,7 +1756,10 @@ def run(ck: Ck) -> None:
                'character, at random positions, with empty chunks, after every backslash/quote/newline; non-trivial = at '
                'least two chunks. token strings: ALL strings up to length 4 (thorough 5) over {STR a, STR b, STR with a '
                'line break, NEWLINE, {, }, enabled flag, disabled flag, EQUALS} x 16 option vectors x {EOF, tokenizer '
-               'error}: counted as evaluations, not as distinct non-trivial cases.')
+               'error}: counted as evaluations, not as distinct non-trivial cases. histories: per searched tree one of '
+               '{file raising at the k-th write (1-3 times, one in 16: 130 times), non-str value then repaired, edit '
+               'through the public API, export() generator dropped after k lines} (+ a repaired cycle for one tree in 32; '
+               'all kinds for the directed documents), then the same tree written again; run after all other oracles.')
     ck.trusted.append('hand-written model KV/KvParse.v (token loop of Keyvalues.parse with its options), tied on every run by '
                       'the exhaustive token-level correspondence and the sampled text-level correspondences')
     ck.trusted.append('Text/Tokenizer.v (reader-program model of Tokenizer, owned and tied by C03); KV/KvLex.v is proved equal '
@@ -1744,6 +1769,10 @@ def run(ck: Ck) -> None:
                       'return value) and translate/c01_kvaux.py (symbolic reading of _read_flag, the statement list of _serialise); '
                       'the meaning of the generated objects is in KV/KvWriter.v, KV/KvFlagProg.v (compared with _read_flag on every '
                       'run), KV/KvWProg.v')
+    ck.trusted.append('translate/c01_kvser.py init_state / state_refs / state_kind (which module-level and class-level objects are '
+                      'mutable state -- by runtime value and "changed by some function of the module" --, statements read as guard / '
+                      'mark / unmark / state) and the meaning of the history program in KV/KvWHist.v hstep (an exception = the '
+                      'k-th write raises, nothing after it runs); export() as a program: KV/KvXProg.v xstep')
     ck.assumptions += [
         'trees are finite, acyclic, values are str, only the root is nameless (Keyvalues.root / parse result)',
         'names contain no CR/LF unless parse is called with newline_keys=True; values contain none when '
@@ -1789,7 +1818,7 @@ def run(ck: Ck) -> None:
         th2 = None
         if ok_esc:
             th2 = threading.Thread(target=lambda: inst2.update(rec2.instance_obligations(
-                IMPORTS_REFINE + ['SV.KV.KvSym', 'SV.KV.KvLoop', 'SV.KV.KvLoopRoundtrip', 'SV.Gen.KVLoop_gen'] + IMPORTS_AUX, {
+                IMPORTS_REFINE + ['SV.KV.KvSym', 'SV.KV.KvExport', 'SV.KV.KvLoop', 'SV.KV.KvLoopRoundtrip', 'SV.Gen.KVLoop_gen'] + IMPORTS_AUX, {
             'tokenizer_model_escape_table_equals_kv_lexer_table': 'esc_tables_match gen_tables gen_escfg',
             'tokenizer_model_BARE_DISALLOWED_equals_kv_lexer_set': 'bare_tables_match gen_tables',
             'tokenizer_model_operators_are_brace_open_close_equals_comma': 'ops_match (Str.operators gen_tables)',
@@ -1798,6 +1827,11 @@ def run(ck: Ck) -> None:
                 'cfg_ok gen_sercfg && esc_ok gen_escfg && pcfg_ok gen_parsecfg && loop_ok gen_ptree gen_pfinal gen_parsecfg && '
                 'tables_match gen_tables gen_escfg && delivery_ok gen_serpaths && flagprog_ok gen_flagprog && '
                 'wprog_pure gen_wprog && wprog_text_ok gen_sercfg gen_wprog',
+            'all_thirteen_hypotheses_of_c01_property_all_calls_hold_of_the_regenerated_objects':
+                'cfg_ok gen_sercfg && esc_ok gen_escfg && pcfg_ok gen_parsecfg && loop_ok gen_ptree gen_pfinal gen_parsecfg && '
+                'tables_match gen_tables gen_escfg && delivery_ok gen_serpaths && flagprog_ok gen_flagprog && '
+                'wprog_pure gen_wprog && wprog_text_ok gen_sercfg gen_wprog && hprog_stateless gen_hprog && '
+                'xcfg_ok gen_expcfg && xprog_pure gen_xprog && xprog_text_ok gen_expcfg gen_xprog',
           }, name='inst_refine')))
             th2.start()
         inst = ck.instance_obligations(IMPORTS + [i for i in IMPORTS_LOOP if i not in IMPORTS] + IMPORTS_AUX, {
@@ -1936,28 +1970,30 @@ def run(ck: Ck) -> None:
                     'instance:child_indent', 'instance:root_child_indent', 'instance:cfg_ok_and_esc_ok',
                     'instance:escape_table', 'instance:every_escape_written', 'instance:escape_fast_path',
                     'instance:root_test_of_serialise', 'instance:serialise_hands_the_writes', 'instance:serialise_has_a_path',
-                    'instance:delivery_ok', 'instance:all_nine_hypotheses', 'instance:writer_program_writes_are',
+                    'instance:delivery_ok', 'instance:all_nine_hypotheses', 'instance:all_thirteen_hypotheses', 'instance:writer_program_writes_are',
                     'instance:cur_indent_is_written_exactly',
                     'instance:parse_newline_key_test', 'instance:parse_newline_value_test',
                     'instance:parse_loop_', 'instance:parse_checks_after', 'instance:parse_emptiness', 'instance:loop_ok'):
             ck.explain(pre)
     if any(k.startswith('export-roundtrip') for k in keys):
-        for pre in ('instance:export_', 'instance:root_test_of_export', 'instance:xcfg_ok'):
+        for pre in ('instance:export_', 'instance:root_test_of_export', 'instance:xcfg_ok', 'instance:all_thirteen_hypotheses'):
             ck.explain(pre)
     if 'serialise-to-file-differs' in keys:
         for pre in ('instance:serialise_hands_the_writes', 'instance:serialise_has_a_path', 'instance:delivery_ok',
-                    'instance:all_nine_hypotheses'):
+                    'instance:all_nine_hypotheses', 'instance:all_thirteen_hypotheses'):
             ck.explain(pre)
     if any(k.startswith('history:') for k in keys):
         # an aborted call that changes what a later call does explains the state obligations
         ck.explain('instance:writer_program_has_no_instruction_touching_state')
         ck.explain('instance:writers_read_and_write_no_module_or_class_level')
+        ck.explain('instance:all_thirteen_hypotheses')
     if 'serialise-mutates-tree' in keys or 'export-mutates-tree' in keys:
         ck.explain('instance:no_store_to_tree')
         ck.explain('instance:no_mutating_call')
         ck.explain('instance:writer_program_has_no_store')
         ck.explain('instance:export_program_has_no_store')
         ck.explain('instance:export_program_yields_are')
+        ck.explain('instance:all_thirteen_hypotheses')
         ck.explain('instance:writer_program_writes_are')
         ck.explain('instance:all_nine_hypotheses')
 
